@@ -16,7 +16,7 @@ def run(ctx):
     pepsolve.r_obj(ctx)
     translate.r_evalshape(ctx)
     c16.r_operand_access(ctx)
-    c16.r_unsolved_program(ctx)    # after a solve the accessors return the value of the object they belong to (entries of an LMI at their own positions)
+    c16.ensure_accessor_programs(ctx)    # after a solve the accessors return the value of the object they belong to (entries of an LMI at their own positions)
     pepsolve.r_primalflow(ctx)
     wrappers.r_lmienc(ctx)
     mosekprog.r_solve_call(ctx)
